@@ -159,6 +159,14 @@ def fixed_cases():
                         ("f", ["cat", [["rep", 0, None, L(0, "a")], ["opt", L(0, "b")]]], None),
                         ("g", ["cat", [["rep", 0, None, L(0, "a")], ["rep", 0, 1, L(0, "a")], ["opt", L(0, "b")]]], None)],
          ["a" * 254, "a" * 256, "a" * 257, "a" * 258, "a" * 259, "a" * 300, "a" * 301, "a" * 258 + "b", "a" * 257 + "b"])
+    # rules defined, extended and referenced under DIFFERENT letter-case spellings in one text: a rule is named as it was first written
+    respelled = "".join(f'{a} = "{c}" {b2}\r\n{b} =/ "{c}{c}"\r\n' for a, b, b2, c in
+                        [("token", "TOKEN", "Word", "t"), ("Word", "word", "NUM", "w"), ("num", "NUM", "Tail", "n"), ("tail", "TAIL", "last", "l"),
+                         ("Last", "LAST", "END", "s")]) + 'end = "."\r\nEND =/ "!"\r\n'
+    respelled_rules = [(a, ["alt", 0, [["cat", [L(0, c), ["ref", b2]]], L(0, c + c)]], None) for a, b2, c in
+                       [("token", "Word", "t"), ("Word", "num", "w"), ("num", "tail", "n"), ("tail", "Last", "l"), ("Last", "end", "s")]] + \
+                      [("end", ["alt", 0, [L(0, "."), L(0, "!")]], None)]
+    case("respelled-rules", respelled_rules, ["twnls.", "twnls!", "tt", "twnn", "twnlss", "TWNLS.", "t"], alpha="twnls.!", via_text=respelled)
     # wide alternations (8 or more alternatives) made of string literals only, case-sensitive and case-insensitive ones mixed, some
     # spelled alike up to case; and a first-match alternation that lists rules and ranges BEFORE quoted strings
     lits = [L(1, "m"), L(0, "M"), L(0, "mm"), L(1, "K"), L(0, "k"), L(0, "g"), L(1, "Mi"), L(0, "mi"), L(0, "t"), L(1, "T"), L(0, "p")]
@@ -284,7 +292,17 @@ def run_cases(cases, want_parse=True):
         meta.append(None)
         t_case = time.time()
         slow = False
-        for s in c["inputs"]:
+        inputs_ = list(c["inputs"])
+        if any(r.get("excl") for r in g["rules"]):
+            # with exclusions in play every input is also tried in its other letter cases, one after the other on the same objects: a
+            # verdict reached for one spelling says nothing about another
+            seen_ = set(inputs_)
+            for s0 in list(inputs_):
+                for v_ in (s0.swapcase(), s0.upper(), s0.lower()):
+                    if v_ not in seen_ and len(v_) == len(s0):
+                        seen_.add(v_)
+                        inputs_.append(v_)
+        for s in inputs_:
             # generated cases get a small time budget (exponentially ambiguous grammars are skipped); the hand-picked ones are
             # always run to the end, whatever the load of the machine
             if slow or time.time() - t_case > (3.0 if c.get("mode") != "fixed" else 90.0):
